@@ -19,8 +19,8 @@ ASSUMPTIONS = [
     "weighted-mean / monotone / scale clauses only where total usable capacity x100 >= 1 in every run compared (away from the is_close_to_zero cut-off at 1e-9)",
     "a missing or NaN metric is modelled as an absent key (LatestMetricsFetcher drops NaN metrics before they reach the calculator; that filter is a concrete replay only)",
 ]
-BOUNDS = {"quick": "<=2 batteries: every missing-metric pattern and working subset, all values symbolic; monotone/scale with complete data; 3 batteries for the range clause",
-          "thorough": "3 batteries for every clause"}
+BOUNDS = {"quick": "<=2 batteries: every missing-metric pattern and working subset, all values symbolic; range, monotone and scale invariance with complete data for 2 and 3 batteries",
+          "thorough": "3 batteries for every clause incl. all missing patterns (budgeted)"}
 OUTSIDE = "more than 3 batteries; IEEE rounding; the fetcher/SendOnUpdate caching layers"
 BUDGET = {"quick": 300, "thorough": 1800}
 KEYS = [M.CAPACITY, M.SOC, M.SOC_LOWER_BOUND, M.SOC_UPPER_BOUND]
@@ -133,11 +133,13 @@ def instances(tier):
         I("mono-2", "make_mono", (2,), "2 batteries: monotone in battery 0's SoC", budget_s=200, **kw),
         I("scale-2", "make_scale", (2,), "2 batteries: scale invariance", budget_s=200, **kw),
     ]
+    out += [
+        I("mono-3", "make_mono", (3,), "3 batteries: monotone", budget_s=600, **kw),
+        I("scale-3", "make_scale", (3,), "3 batteries: scale invariance", budget_s=600, **kw),
+    ]
     if tier != "quick":
         kw["dump_queries"] = 10
         out += [
-            I("mono-3", "make_mono", (3,), "3 batteries: monotone", budget_s=600, **kw),
-            I("scale-3", "make_scale", (3,), "3 batteries: scale invariance", budget_s=600, **kw),
             I("mean-3", "make_mean", (3,), "3 batteries, all patterns (budgeted)", budget_s=900, exhaustive=False, **kw),
         ]
     return out
